@@ -16,8 +16,8 @@ pub const ENTRY: Entry = Entry {
     level: "model_checking",
     rule: "real Display::set_vertical_scroll_region / set_vertical_scroll_offset through a recording interface, for every built-in \
            framebuffer height (160, 162, 240, 320, 480, 536) and the extreme heights 1 and 65535: quick = (top, bottom) over a \
-           boundary lattice^2 (0,1,2,H-1,H,H+1, 65535-H.., 32767/32768, 65534, 65535 and complements) x 8 orientations; thorough = all \
-           2^32 (top, bottom) pairs per height; all 65536 scroll offsets. Arithmetic oracle in u64 on the decoded VSCRDEF: exactly one \
+           boundary lattice^2 (0,1,2,H-1,H,H+1, 65535-H.., 32767/32768, 65534, 65535 and complements) x 8 orientations x 4 refresh orders x 2 colour orders, and on the real SPI (staging buffers of 2..7 bytes) and \
+           parallel transports decoded at pin level; thorough = all 2^32 (top, bottom) pairs per height; all 65536 scroll offsets. Arithmetic oracle in u64 on the decoded VSCRDEF: exactly one \
            0x33 with six parameters, tfa+vsa+bfa == H, tfa == top and bfa == bottom whenever top+bottom <= H, no panic; 0x37 carries the \
            offset big-endian. Run with overflow checks on (wrap = panic) and off (wrap = wrong value). Non-trivial = top+bottom > H or \
            a u16 carry is involved.",
@@ -32,7 +32,7 @@ pub fn height_cfgs() -> Vec<Cfg> {
     for (i, b) in BUILTINS.iter().enumerate() {
         if seen.insert(b.fb.1) {
             let tr = if b.supports[0] { Transport::RecSerial } else { Transport::RecPar8 };
-            v.push(Cfg { model: ModelId::Builtin(i as u8), tr, win: Some((8, 8, 0, 0)), orient: 0, bgr: false, invert: false, refresh: 0, rst: false });
+            v.push(Cfg { model: ModelId::Builtin(i as u8), tr, win: Some((8, 8, 0, 0)), orient: 0, bgr: false, invert: false, refresh: 0, rst: false, flags: 0 });
         }
     }
     v.push(Cfg::tiny(65535, 1, false, Transport::RecSerial, (8, 1, 0, 0), 0));
@@ -59,29 +59,14 @@ impl Lean {
         assert!(rig.init.is_ok(), "init failed: {:?}", rig.init);
         Lean { rig }
     }
-    /// run `op` and return (outcome, commands seen as (op, params))
+    /// run `op` and return (outcome, commands the controller model decoded as (op, params)) - any transport
     fn call(&mut self, op: &Op) -> (Outcome, Vec<(u8, Vec<u8>)>) {
-        {
-            let mut b = self.rig.bd.borrow_mut();
-            b.evs.clear();
-            b.bytes.clear();
-            b.words.clear();
-        }
-        let d = self.rig.dut.as_mut().unwrap();
-        let out = guarded(|| match op {
-            Op::ScrollRegion(t, bt) => d.scroll_region(*t, *bt),
-            Op::ScrollOffset(o) => d.scroll_offset(*o),
-            _ => unreachable!(),
-        });
-        let b = self.rig.bd.borrow();
-        let mut cmds = Vec::new();
-        for e in &b.evs {
-            if let Ev::Cmd { op, off, len, .. } = e {
-                cmds.push((*op, b.bytes[*off as usize..(*off + *len) as usize].to_vec()));
-            } else {
-                cmds.push((0xEE, vec![]));
-            }
-        }
+        self.rig.reset_logs();
+        self.rig.ctl.keep_cmds = true;
+        let n0 = self.rig.ctl.cmds.len();
+        let out = self.rig.apply(op);
+        let cmds = self.rig.ctl.cmds[n0..].iter().map(|c| (c.op, c.params.clone())).collect();
+        self.rig.ctl.viols.clear();
         (out, cmds)
     }
 }
@@ -176,17 +161,19 @@ fn run(ctx: &Ctx) -> Part {
         let orients: Vec<u8> = (0..8).collect();
         // work items: (orientation, top range)
         let items: Vec<(u8, u32, u32)> = if quick {
-            orients.iter().map(|&o| (o, 0, 0)).collect()
+            // code: bits 0..2 orientation, bits 3..4 refresh order, bit 5 BGR (lattice pairs on each)
+            (0..64u8).map(|o| (o, 0, 0)).collect()
         } else {
             // all 2^32 pairs on orientation 0 (split by top), lattice on the others
             let mut v: Vec<(u8, u32, u32)> = (0..256u32).map(|k| (0u8, k * 256, k * 256 + 256)).collect();
-            v.extend(orients.iter().skip(1).map(|&o| (o, 0, 0)));
+            v.extend((1..64u8).map(|o| (o, 0, 0)));
+            let _ = &orients;
             v
         };
         let a = items
             .par_iter()
             .fold(Acc::new, |mut acc, &(o, lo, hi)| {
-                let cfg = Cfg { orient: o, ..*base };
+                let cfg = Cfg { orient: o & 7, refresh: (o >> 3) & 3, bgr: o & 32 != 0, ..*base };
                 let mut lean = Lean::new(&cfg);
                 let lat = lattice(h);
                 let mut one = |acc: &mut Acc, top: u16, bottom: u16| one_slow(ctx, acc, &mut lean, &cfg, h, top, bottom);
@@ -213,7 +200,7 @@ fn run(ctx: &Ctx) -> Part {
                     }
                 }
                 // scroll offsets: all 65536 on orientation 0 and 5
-                if (o == 0 && lo == 0) || (o == 5 && lo == hi) {
+                if (o == 0 && lo == 0) || (o == 29 && lo == hi) {
                     for off in 0..=65535u32 {
                         let op = Op::ScrollOffset(off as u16);
                         let (out, cmds) = lean.call(&op);
@@ -236,6 +223,47 @@ fn run(ctx: &Ctx) -> Part {
             .reduce(Acc::new, Acc::merge);
         acc = acc.merge(a);
     }
+    // real transports (SPI with tiny staging buffers, parallel buses): the scroll commands decoded at
+    // pin / SPI level by the controller model
+    let mut tjobs = Vec::new();
+    for tr in [Transport::Spi { len: 2 }, Transport::Spi { len: 3 }, Transport::Spi { len: 4 }, Transport::Spi { len: 5 }, Transport::Spi { len: 7 }, Transport::Par8, Transport::Par16] {
+        for o in [0u8, 6] {
+            tjobs.push(Cfg { orient: o, ..Cfg::tiny(2, 160, false, tr, (2, 8, 0, 0), 0) });
+        }
+    }
+    let a = tjobs
+        .par_iter()
+        .fold(Acc::new, |mut acc, cfg| {
+            let h = cfg.fb().1;
+            let mut rig = Rig::new(cfg);
+            rig.ctl.keep_cmds = true;
+            let lat = lattice(h);
+            for &t in &lat {
+                for &b in &lat {
+                    let n0 = rig.ctl.cmds.len();
+                    let op = Op::ScrollRegion(t, b);
+                    let out = rig.apply(&op);
+                    acc.evaluations += 1;
+                    let cmds: Vec<(u8, Vec<u8>)> = rig.ctl.cmds[n0..].iter().map(|c| (c.op, c.params.clone())).collect();
+                    if let Some((sig, msg)) = check_region(h, t, b, &out, &cmds) {
+                        acc.violation(Violation { prop: ctx.prop.clone(), sig: format!("{sig}/real-transport"), msg: format!("{:?}: {msg}", cfg.tr), case: json!({"variant": ctx.variant, "cfg": cfg, "faults": [], "history": [op], "checks": "c16"}) });
+                    }
+                    rig.ctl.viols.clear();
+                }
+                let off = t;
+                let n0 = rig.ctl.cmds.len();
+                let out = rig.apply(&Op::ScrollOffset(off));
+                let cmds: Vec<(u8, Vec<u8>)> = rig.ctl.cmds[n0..].iter().map(|c| (c.op, c.params.clone())).collect();
+                if !out.is_ok() || cmds != vec![(0x37u8, vec![(off >> 8) as u8, off as u8])] {
+                    acc.violation(Violation { prop: ctx.prop.clone(), sig: "set_vertical_scroll_offset/parameter/real-transport".into(), msg: format!("{:?}: offset {off}: {out:?} {cmds:02x?}", cfg.tr), case: json!({"variant": ctx.variant, "cfg": cfg, "faults": [], "history": [Op::ScrollOffset(off)], "checks": "c16"}) });
+                }
+                rig.reset_logs();
+            }
+            acc.count("real_transport_configs", 1);
+            acc
+        })
+        .reduce(Acc::new, Acc::merge);
+    acc = acc.merge(a);
     acc.transitions = acc.evaluations;
     acc.traces = acc.evaluations;
     acc.sample(json!({"height": 320, "history": [{"ScrollRegion": [65535, 1]}]}));
